@@ -184,6 +184,8 @@ def run_ign(case, viol, obs):
     e = rng.choice(elems)
     ej = gen.jl(e) if isinstance(e, tuple) else e
     kw0 = kw_for(cls, base, k=max(1, len(base["planted"])) + rng.choice([0, 1]))
+    if cls in ("kMinPathError", "kMinPathErrorCycles", "kLeastAbsErrorsCycles") and rng.random() < 0.4:
+        kw0["k"] = None         # the model then derives k from the non-ignored part: ignoring and scale 0 must give the same k
     variants = {"ignore": (dict(kw0, elements_to_ignore=[ej]), {}, [])}
     big = 97 if base["wt"] == "int" else 97.5
     if cls not in W.COV:
@@ -195,13 +197,14 @@ def run_ign(case, viol, obs):
         variants["scale0+garbage"] = (dict(kw0, error_scaling=[[ej, 0]]), {e: big}, [])
         variants["ignore+scale1"] = (dict(kw0, elements_to_ignore=[ej], error_scaling=[[ej, 1]]), {}, [])
     M.TRACE.install()
-    out = {}
+    out = {}; caps = {}
     for name, (kw, garbage, drop) in variants.items():
         sp = gen.spec(base["nodes"], base["edges"]) if cls in W.COV else I.spec_of(base, drop_attr=drop, garbage=garbage)
         if cls in W.COV and node:
             pass
         res = run({"cls": cls, "spec": sp, "kw": kw})
         out[name] = summary(cls, res)
+        caps[name] = {str(k): v for k, v in (getattr(res.get("model"), "edge_upper_bounds", None) or {}).items() if "source_" not in str(k) and "sink_" not in str(k)}
         if out[name] == ("time-limit",):
             obs["c10.time_limited"] += 1
             break          # heavy-tailed instance: the remaining variants would only burn the budget
@@ -213,7 +216,11 @@ def run_ign(case, viol, obs):
     if len(set(vals.values())) > 1:
         ref_ = vals.get("ignore")
         diff = {k: v for k, v in vals.items() if v != ref_}
-        sig = f"C10/ignore-variants-disagree/{cls}/" + "+".join(sorted(diff))[:80] + ("/node" if node else "")
+        if all(caps.get(k) != caps.get("ignore") for k in diff) and cls.endswith("Cycles"):
+            # one mechanism: the walk models derive per-edge multiplicity caps from the largest reachable weight, including the value of ignored elements
+            sig = f"C10/ignore-variants-disagree/{cls}/edge-cap-uses-ignored-values"
+        else:
+            sig = f"C10/ignore-variants-disagree/{cls}/" + "+".join(sorted(diff))[:80] + ("/node" if node else "")
         viol.append({"sig": sig, "msg": f"{vals}; {desc}"[:900]})
     return hashlib.sha1(desc.encode()).hexdigest()[:14], vals.get("ignore", ("",))[0] == "solved", {"desc": desc[:500], "variants": {k: str(v) for k, v in vals.items()}}
 
